@@ -250,7 +250,9 @@ def expression_sets(draw, constructs=("list", "dict", "records", "yml_str"), max
         else:
             allowed = plain_labels + 3 * [labs[j] for j in range(n) if is_expr[j] and hidden[j] < hidden[i]]
             tree = draw(gp.trees(allowed, max_leaves=4, need_ref=False))
-            params.append({"label": lab, "value": draw(st.sampled_from([None, None, 0.0, 1.0])), "min": -INF, "max": INF, "nn": False,
+            # (bounds on a derived parameter are accepted and have no meaning: its value is that of its expression)
+            lo, hi = draw(st.sampled_from([(-INF, INF), (-INF, INF), (-INF, INF), (0.0, INF), (-INF, 0.5), (-0.5, 0.5), (1.0, 2.0)]))
+            params.append({"label": lab, "value": draw(st.sampled_from([None, None, 0.0, 1.0])), "min": lo, "max": hi, "nn": False,
                            "vary": True, "expr": tree})
     pset = {"construct": base, "params": params}
     free = [p["label"] for p in params if gp.is_free(p)]
@@ -375,10 +377,29 @@ class Model:
             vec = [s["vec"][i % len(s["vec"])] for i in range(len(labels))]
             if not labels:
                 return False
-            new = plain_values(self.P, pset)
+            old = plain_values(self.P, pset)
+            new = dict(old)
             new.update(optimiser_vector_to_values(pset, labels, vec))
             if not in_domain(pset, new):
-                return False
+                # outside the domain of some expression the update may be refused (or give non-finite values): whichever it is,
+                # the object must serve the next valid update - here: back to the values it held
+                byl = gp.by_label(pset)
+                try:
+                    with np.errstate(all="ignore"):
+                        # (plain python floats: 1 / 0.0 raises where numpy gives inf)
+                        self.P.set_from_label_and_value_arrays(labels, [float(v) for v in vec])
+                except Exception:  # noqa: BLE001
+                    self.ops.add("refused_update")
+                with np.errstate(all="ignore"):
+                    back = [float(np.log(np.float64(old[lab]))) if byl[lab].get("nn") else old[lab] for lab in labels]
+                restored = dict(old)
+                restored.update(optimiser_vector_to_values(pset, labels, back))
+                if not in_domain(pset, restored):
+                    raise Violation("machine.domain", "oracle: restored values outside the domain")
+                with expect_ok("machine.set_after_out_of_domain_update_call"), np.errstate(all="ignore"):
+                    self.P.set_from_label_and_value_arrays(labels, np.array(back, dtype=float))
+                self.verify("set_after_out_of_domain_update")
+                return True
             with expect_ok("machine.set_call"), np.errstate(all="ignore"):
                 self.P.set_from_label_and_value_arrays(labels, np.array(vec, dtype=float))
             for lab in labels:
